@@ -421,3 +421,38 @@ def report_broken_ties(ctx, found_any):
         ctx.violation("tie", {"what": "proof obligation / translator / correspondence no longer checks and no failing input was found",
                               "broken": ctx.ties_broken,
                               "lean_log_tail": (ctx.lean or {}).get("build_log_tail", "")[-1500:]}, found_input=False)
+
+
+def ddmin(items, fails, max_tests=400):
+    """delta debugging: smallest sub-list (order kept) for which fails(sub) is True"""
+    n = 2
+    tests = 0
+    items = list(items)
+    while len(items) >= 2 and tests < max_tests:
+        chunk = max(1, len(items) // n)
+        reduced = False
+        for i in range(0, len(items), chunk):
+            cand = items[:i] + items[i + chunk:]
+            tests += 1
+            if cand and fails(cand):
+                items = cand
+                n = max(n - 1, 2)
+                reduced = True
+                break
+        if not reduced:
+            if chunk == 1:
+                break
+            n = min(len(items), n * 2)
+    return items
+
+
+def split_cases(lines, is_start):
+    """split a flat script into cases beginning at lines for which is_start(line)"""
+    cases, cur = [], []
+    for l in lines:
+        if is_start(l) and cur:
+            cases.append(cur); cur = []
+        cur.append(l)
+    if cur:
+        cases.append(cur)
+    return cases
